@@ -49,6 +49,9 @@ def cubicSolve (a b c d : Cx K) : Array (Cx K) :=
     let r2 := divT (-(b + u2 * k + divT d0 (u2 * k))) (nmul 3 a)
     #[r0, r1, r2]
 
+/-- `f64::is_finite` : `x - x == 0` fails exactly for ±inf and NaN -/
+def isFinite (x : K) : Bool := (x - x) == 0
+
 def frac : Array K := #[0.0, 0.5, 0.25, 0.75, 0.13, 0.38, 0.62, 0.88, 1.0]
 
 /-- evaluation part of one Laguerre iteration: returns (b, d, f, err) -/
@@ -82,6 +85,8 @@ def laguerStep (a : Array (Cx K)) (m : Nat) (iter : Nat) (x : Cx K) : Option (Cx
               else polar (1 + abx) (ofNat iter)
     let x1 := x - dx
     if x == x1 then none
+    -- a non-finite step (|p(x)|² underflows next to a root at zero) stops with the current estimate
+    else if !(isFinite x1.re && isFinite x1.im) then none
     else if iter % 10 != 0 then some x1
     else some (x - mulR dx ((frac (K := K))[iter / 10]?.getD 0))
 
